@@ -233,6 +233,8 @@ func (C07) OnCall(e *sim.Env, c *sim.Call) {
 			v.tokens = new(big.Int)
 			v.status = 0
 			e.Count("c07.crossed_minimum")
+		} else if amt.Sign() > 0 && v.tokens.Cmp(bi(cp.Min)) == 0 {
+			e.Count("c07.slash_leaves_exactly_the_minimum")
 		}
 	}
 	// A: queued burns in key order
